@@ -38,6 +38,13 @@ seedrows = '\n'.join(seedrows)
 ncorp = len(glob.glob(os.path.join(V, 'corpus', '*', '*.json')))
 nseeds = n_first + n_later
 
+nthm = 0
+per = {}
+for f in sorted(glob.glob(os.path.join(V, 'lean', 'OptiModel', 'Props', 'C*.lean'))):
+    src = re.sub(r'/-.*?-/', '', open(f).read(), flags=re.S)
+    per[os.path.basename(f)[:-5]] = len(re.findall(r'^\s*(?:private\s+|protected\s+)?theorem\s', src, flags=re.M))
+nthm = sum(per.values())
+percounts = ', '.join('%s %d' % kv for kv in sorted(per.items()))
 revert = ''
 rp = os.path.join(V, 'seeded', 'REVERT_RESULTS.md')
 if os.path.exists(rp):
@@ -179,7 +186,7 @@ nothing) — the table shows that this works for every repair.
 
 ### 11.8 What is modelled, what is proved, what is only compared (summary; per property in `claims/Cxx.json` and `evidence/Cxx.json`)
 
-* Proved in Lean (about 1150 theorems and audited helper lemmas at the time of writing, all with axioms ⊆ {{propext,
+* Proved in Lean ({nthm} theorems and audited helper lemmas in `Props/` at the time of writing — {percounts} —, all with axioms ⊆ {{propext,
   Classical.choice, Quot.sound}}, no `sorry`, no `native_decide`, no own axiom): statements about the hand-written
   models in `lean/OptiModel/Model/*.lean` at the carrier ℝ (or any carrier / core data where the statement is structural).
 * Tied to the code on every run: the same model definitions, compiled at `Float` into the native driver `optidrv`, are
@@ -210,6 +217,22 @@ property files; I merged after rebuilding and re-running the checks in `/verif`:
 | C06 | 3 | 22 | all seven closed forms: `ellipsoid_mirror_stigmatic(_rev)(_neg)`, `hyperboloid_mirror_stigmatic`, `hyperboloid_secondary_stigmatic`, `hyperbolic_surface_stigmatic`, `plano_hyperbolic_singlet`, `sphere_aplanatic`, `sphere_centre_opl` |
 | C07 | 16 | 101 | `traceLens_mirX/_mirY(_asph)`, `traceLens_scale(_wavelength)`, `dummy_surface_transparent` (list level), `selectRoot_advance` |
 
+A **referee pass** followed: four review agents (fresh contexts, private copies, brief: is each theorem vacuous, true
+for the wrong reason — the junk values `Num.inf = 0`, `x/0 = 0`, `sqrt` of a negative —, weaker than the clause, or a
+restated definition?) went through C01 and C08–C20.  No main theorem was vacuous or false.  What they found and
+repaired in the Props files (merged): missing non-vacuity instances on realistic lenses (C08 `SysOK` singlet, C14 a
+complete optimise/undo run, C15 a compensated tolerancing run, C19 a four-surface lens with pickup and solve, C20 a
+loaded file); statements that were about helper definitions instead of what the driver runs (C18 the formula
+dispatcher and the regular-expression look-up of the tree, C20 the loaded lens instead of `expected`, C11 the
+`grid_size × grid_size` PSF of the repaired tree, C09 the `…Spec` variants the repaired tree computes, C01 `setThickness`
+/ `addSurface` / `applySolve` on the prescription itself and `media_chain_after_any_history`); clauses that had no
+theorem (C01 `build_in_order`: every call succeeds and vertices are running sums; C14 `not_worse_of_minimising_oracle`,
+`within_bounds_of_bounded_oracle`, any number of variables in `Proofs/OptimMulti.lean`; C11 `mtf_pipeline` and
+`mtf_zero_from_cutoff`; C12 `encircledEnergy_curves`; C17 `fresnel_energy_below_critical`, `polarizer_pass_block`);
+junk-value reliance made explicit (C16 `GenuineHit`/`intensity_monotone_genuine`, C13 `nrStep_displacement` guard
+`N ≠ 0`); restated definitions labelled as such.  The pass also found a defect in the code: **F-C08-3** (the guard
+`inv ≠ 0` of `terms_eq_classical` excludes an input the code accepts and answers with zeros).
+
 ### 11.10 Mechanisms added during the build (beyond the plan of section 9)
 
 * **Regression corpus** (`corpus/<P>/*.json`, `harness/main.py:run_corpus`): minimised failing cases recorded on seeded
@@ -227,6 +250,10 @@ property files; I merged after rebuilding and re-running the checks in `/verif`:
   modules independently of the elaborator (`checker_cmd` in the evidence shows its exit status).
 * **Replay fidelity**: every harness re-runs exactly the recorded case with `./check <P> --replay <file>`; C06 and C07
   were repaired in this respect (configuration / work seed carried in the case), found when the corpus was built.
+* **Generator hygiene**: an F-number aperture on a nearly afocal random prescription means a beam of metres launched
+  from kilometres away; most conditioning false alarms of the multi-seed and thorough runs came from such lenses
+  (C05 seed 2, C07 seed 14, C02/C07/C09 thorough).  `lensgen.gen_lens` now turns an `imageFNO` aperture into an `EPD`
+  aperture when |f2|/FNO would exceed 0.6 |R|min or 40 mm (`approx_f2`, a y-nu trace over the descriptor).
 * **Thorough tier** (`./check <P> --tier thorough`, 2–15 min each; all 20 run from a committed snapshot with `vp run`):
   the first full run produced alarms on the unchanged tree in C02, C05, C07, C11, C12, C13, C14 — one genuine defect
   (F-C11-5, repaired), one new finding (F22b), one artefact of editing `/repo` while the run was going (C13: the
